@@ -234,6 +234,15 @@ def build_cases(tier: str):
                 nargs += 1
                 cases.append(Case(pid, backend, text, argscope.extra_metadata(text) + md, {"k": "argscope:" + ctx, "ndev": 0}))
                 pid += 1
+        # every expression form mixing an outer and an inner loop variable, under the same consumers
+        from mc.lang import mixfam
+        nmix = 0
+        for ctx, text in mixfam.queries(backend):
+            if text not in seen and (tier != "quick" or backend == "atlas" or ctx in ("sum", "column-2d", "first-receiver")):
+                seen.add(text)
+                nmix += 1
+                cases.append(Case(pid, backend, text, md, {"k": "mixed-scope:" + ctx, "ndev": 0}))
+                pid += 1
         # explicit Aggregate(init, lambda acc, v: ...) with computed initial values and closures over enclosing loops
         from mc.lang import aggfam
         naggs = 0
@@ -254,7 +263,7 @@ def build_cases(tier: str):
                 cases.append(Case(pid, backend, text, md, {"k": "struct:" + ctx, "ndev": 0}))
                 pid += 1
         derived = sum(len(v) for v in g._memo.values())
-        gen_stats[backend] = {"skeletons": nsk, "programs": len(seen), "derived_subterms": derived, "argument_scope_programs": nargs, "explicit_aggregate_programs": naggs, "intermediate_structure_programs": nstruct,
+        gen_stats[backend] = {"skeletons": nsk, "programs": len(seen), "derived_subterms": derived, "argument_scope_programs": nargs, "explicit_aggregate_programs": naggs, "mixed_scope_programs": nmix, "intermediate_structure_programs": nstruct,
                               "bounds": {"k_d0": k0, "k_d1": k1, "k_d2": k2}}
     return cases, gen_stats
 
